@@ -73,7 +73,7 @@ fn first_serving(s: u8) -> u32 {
     match s {
         0 => 1,
         1 | 2 | 3 => 2,
-        4 | 6 | 8 => 4,
+        4 | 6 | 8 | 10 => 4,
         7 | 9 => 6,
         _ => 3,
     }
@@ -91,6 +91,8 @@ fn source(r: &RecipeSpec, vals: &[QSpec]) -> String {
         7 => s.push_str("---\nservings: [6, 2, 4]\n---\n"),
         8 => s.push_str("---\ntitle: T\nserves: 4\n---\n"),
         9 => s.push_str(">> yield: 6 pieces\n"),
+        // parsed with a caller-supplied metadata validator that switches the standard checks off for `title` only
+        10 => s.push_str("---\ntitle: T\nnotes: x\nservings: 4\n---\n"),
         _ => {}
     }
     s.push_str("Add");
@@ -249,7 +251,28 @@ fn check(env: &Env, pi: usize, spec: &RecipeSpec, local: &mut Local) -> Vec<Viol
         local.outcome("unit without `%` needs the advanced-units extension (skipped)");
         return out;
     }
-    let base = parser.parse(&src);
+    let parse_src = || -> cooklang::RecipeResult {
+        if spec.servings == 10 {
+            use cooklang::analysis::{CheckOptions, CheckResult};
+            parser.parse_with_options(
+                &src,
+                cooklang::ParseOptions {
+                    recipe_ref_check: None,
+                    metadata_validator: Some(Box::new(|k: &serde_yaml::Value, _v: &serde_yaml::Value, o: &mut CheckOptions| {
+                        match k.as_str() {
+                            Some("title") => o.run_std_checks(false),
+                            Some("notes") => o.include(false),
+                            _ => {}
+                        }
+                        CheckResult::Ok
+                    })),
+                },
+            )
+        } else {
+            parser.parse(&src)
+        }
+    };
+    let base = parse_src();
     if !base.is_valid() {
         local.outcome("source not valid under this configuration (outside the property)");
         return out;
@@ -261,7 +284,7 @@ fn check(env: &Env, pi: usize, spec: &RecipeSpec, local: &mut Local) -> Vec<Viol
             return out;
         }};
     }
-    let reparse = || parser.parse(&src).into_output().expect("valid recipe has output");
+    let reparse = || parse_src().into_output().expect("valid recipe has output");
     // default scaling: written values verbatim
     let d = reparse().default_scale();
     local.evaluations += 1;
@@ -406,7 +429,7 @@ fn check(env: &Env, pi: usize, spec: &RecipeSpec, local: &mut Local) -> Vec<Viol
         0 => None,
         1 => Some(vec![2]),
         2 | 3 => Some(vec![2, 4]),
-        4 => Some(vec![4]),
+        4 | 10 => Some(vec![4]),
         6 => Some(vec![4, 2]),
         7 => Some(vec![6, 2, 4]),
         8 => Some(vec![4]),
@@ -445,7 +468,7 @@ fn specs(tier: Tier, vals: &[QSpec]) -> Vec<RecipeSpec> {
         }
     }
     // no quantity
-    for servings in 0..=9u8 {
+    for servings in 0..=10u8 {
         v.push(RecipeSpec { comps: vec![CompSpec { kind: 'i', value: None, unit: "", lock: false }], servings, reference: 0, inline: true, space_sep: false });
     }
     // cookware and timers
@@ -462,7 +485,7 @@ fn specs(tier: Tier, vals: &[QSpec]) -> Vec<RecipeSpec> {
     for val in 0..nv {
         for unit in combo_units {
             for lock in [false, true] {
-                for servings in 0..=9u8 {
+                for servings in 0..=10u8 {
                     for val2 in [0usize, 7, 13] {
                         v.push(RecipeSpec {
                             comps: vec![
